@@ -121,8 +121,10 @@ TraceStep ==
        ELSE IF sub = 0
          THEN /\ st' = StartState(e) /\ acc' = StartClauses(e) /\ sub' = 1 /\ l' = l
        ELSE IF sub <= Horizon(e)
-         THEN /\ st' = RefStep(e.inst, st)
-              /\ acc' = acc \cup IterClauses(e, sub, st')
+         THEN /\ IF \E c \in acc : c \in {"harness-not-kkt", "harness-not-api-fixed"}
+                   THEN st' = st /\ acc' = acc         \* ill-formed event: do not iterate a state that moves
+                   ELSE /\ st' = RefStep(e.inst, st)
+                        /\ acc' = acc \cup IterClauses(e, sub, st')
               /\ sub' = sub + 1 /\ l' = l
        ELSE /\ \E bad \in {FinalClauses(e, acc)} : Report(e, bad)
             /\ l' = l + 1 /\ sub' = 0 /\ st' = <<>> /\ acc' = {}
